@@ -6,7 +6,7 @@ wt=/tmp/mw_$$_$prop
 git -C /repo worktree add --detach $wt HEAD >/dev/null 2>&1 || { echo "worktree failed"; exit 3; }
 trap "git -C /repo worktree remove --force $wt >/dev/null 2>&1; git -C /repo worktree prune" EXIT
 git -C $wt apply "$patch" || exit 3
-VERIF_OUT_DIR=/tmp/mw_ev_$$ /verif/bin/gosym check --repo $wt "$@" "$prop" 2>&1 | grep -v "^  vh_" | cut -c1-400
+VERIF_OUT_DIR=/tmp/mw_ev_$$ ${VERIF:-/verif}/bin/gosym check --repo $wt "$@" "$prop" 2>&1 | grep -v "^  vh_" | cut -c1-400
 rc=${PIPESTATUS[0]}
 rm -rf /tmp/mw_ev_$$
 echo "exit=$rc"
